@@ -104,6 +104,10 @@ func main() {
 		runCli(os.Args[2:])
 		return
 	}
+	if len(os.Args) >= 2 && os.Args[1] == "__cli_dep" {
+		runDepCli(os.Args[2:])
+		return
+	}
 	if len(os.Args) < 4 {
 		fmt.Fprintln(os.Stderr, "usage: harness <family> <cases.jsonl> <out.jsonl>")
 		os.Exit(2)
